@@ -1,4 +1,5 @@
 import Snel.Lemmas.ShardCount
+import Snel.Lemmas.ShardFail
 /-!
 # C03 — reads see every applied write at every stage of its flush
 
@@ -105,5 +106,48 @@ example : CrashFree [.store ⟨1,0,0⟩, .store ⟨2,0,0⟩, .flushStep, .store 
   constructor
   · intro o ho; simp at ho; rcases ho with rfl | rfl | rfl | rfl | rfl | rfl | rfl | rfl <;> rfl
   · decide
+
+/-! ## Flushes that fail
+
+`Flusher::flush` can answer an error (the segment directory cannot be created); the flush worker
+then drops the job and its in-flight marker and retains the passive buffer. `FOp.fail` is that
+step; histories interleave it freely with stores, manual flushes and flush-worker steps. -/
+
+/-- A history with failing flushes but without crash or restart. -/
+def CrashFreeF (ops : List FOp) : Prop := ∀ o ∈ ops, o.crashFree = true
+
+/-- Every applied event stays in the selection through any number of failed flushes: the rows of a
+failed job are served from its retained passive buffer. -/
+theorem C03_failed_flush_selection_complete (cap k : Nat) (ops : List FOp) (h : CrashFreeF ops) :
+    ∀ e ∈ storedF ops, e.k ∈ visibleKeys (runF (Shard.init cap k) ops) := by
+  intro e he
+  simp only [visibleKeys, List.mem_eraseDups, List.mem_map]
+  exact ⟨e, cover_scan ((runF_cover ops (init_inv cap k) h).2.2 e he), rfl⟩
+
+/-- COUNT keeps its exact accounting through failed flushes (a retained passive buffer is counted
+once: its job never wrote a directory). -/
+theorem C03_failed_flush_count_accounting (cap k : Nat) (ops : List FOp) (h : CrashFreeF ops) :
+    count (runF (Shard.init cap k) ops)
+      = (storedF ops).length + extra (runF (Shard.init cap k) ops).jobs := by
+  have hinit : Counted (Shard.init cap k) 0 := by
+    simp [Counted, total, Shard.init, sumLen, extra]
+  obtain ⟨h4, hc⟩ := runF_counted ops 0 (init_inv cap k) (init_inv4 cap k) hinit h
+  rw [count_eq h4]
+  unfold Counted total at hc
+  omega
+
+/-- Non-vacuity: a failure that really drops a job (capacity 2): the two rows stay in the passive
+buffer, no job is left, no directory exists, and a later rotation flushes normally next to it. -/
+example :
+    let ops : List FOp := [.op (.store ⟨1,0,0⟩), .op (.store ⟨2,0,0⟩), .fail, .op (.store ⟨3,0,0⟩),
+      .op (.store ⟨4,0,0⟩), .op .drain]
+    CrashFreeF ops ∧ (runF (Shard.init 2 2) (ops.take 3)).jobs = [] ∧
+      (runF (Shard.init 2 2) (ops.take 3)).passives = [(0, [⟨1,0,0⟩, ⟨2,0,0⟩])] ∧
+      (runF (Shard.init 2 2) (ops.take 3)).segs = [] ∧
+      visibleKeys (runF (Shard.init 2 2) ops) = [1, 2, 3, 4] ∧ count (runF (Shard.init 2 2) ops) = 4 := by
+  refine ⟨?_, by decide, by decide, by decide, by decide, by decide⟩
+  intro o ho
+  simp at ho
+  rcases ho with rfl | rfl | rfl | rfl | rfl | rfl <;> rfl
 
 end Snel.Props.C03
